@@ -161,10 +161,12 @@ prop('C14', level='other', design_ref='DESIGN.md section 6 (C14)',
      note='Trusted: T-LDB, T-STRUCT, write_state as a function of the counters. Bounded: generated index databases, row sizes '
           '{1,2,3,12500}, batch limits, kills between batches, abandon-then-index.',
      explanation='Batch discipline deductive; content preservation bounded (labelled); KF-C14-1 listed.',
-     bounded=[{'obligation': 'index.c14.bounded', 'driver': 'index_scenario.py', 'request': {'mode': 'c14', 'rounds': 24},
+     bounded=[{'obligation': 'index.c14.bounded', 'driver': 'index_scenario.py', 'request': {'mode': 'c14', 'rounds': 36},
                'what': 'every history identical before/after compaction (one go, batches, killed and resumed, abandoned then '
                        'indexing/undoing on top; every third scenario: compact, index, compact again, index)',
-               'bound': '24 (thorough: 144) generated databases x row sizes {1,2,3,12500} x batch limits {1,30,200,8e6} x 6 modes'},
+               'bound': '36 (thorough: 216) generated databases x row sizes {1,2,3,12500} x batch limits {1,30,200,8e6} x 6 modes; the tool that is '
+                        'run is the real electrumx_compact_history.compact_history() of the tree under test (killed between batches / '
+                        'before set_flush_count by the driver)'},
               {'obligation': 'index.c14.killed-before-set-flush-count', 'driver': 'index_scenario.py',
                'request': {'mode': 'c14-kf', 'rounds': 8}, 'expect_kf': 'KF-C14-1',
                'what': 'probe of the listed known finding: compaction completed, killed before set_flush_count, one-entry rows',
